@@ -12,7 +12,15 @@ var entSizes = []int{16, 20, 24, 28, 32}
 // ---- shared op runners -----------------------------------------------------------------
 
 // enc runs one NewMnemonicByEntropy op; returns the implementation's answer and the spec's.
+// fitsInt: the value survives the conversion to this build's `int` (always on 64-bit; on the 32-bit build
+// used by the search phase, operations whose Language value would be truncated by the HARNESS are skipped —
+// the truncation would be the harness's, not the implementation's)
+func fitsInt(a int64) bool { return int64(int(a)) == a }
+
 func (c *Ctx) enc(class string, l int64, e []byte) (impl, spec string) {
+	if !fitsInt(l) {
+		return "skipped: the Language value does not fit this build's int", ""
+	}
 	op := fmt.Sprintf("enc %d %s", l, hx(e))
 	m, s := c.drv.Ask(op)
 	impl = implEnc(l, e)
@@ -302,6 +310,26 @@ func (c *Ctx) c09Entropy() {
 			}
 			if ok && impl == "ok _" {
 				c.rep.violate(Violation{Kind: "property", Class: "entropy-length-sweep", Op: fmt.Sprintf("enc %d <%d bytes>", langVals[li], n), Impl: impl, Detail: "empty mnemonic on success"})
+			}
+		}
+	}
+	// entropies that look like text (hex digits in either case, digits, letters) at EVERY length 0..70: the
+	// outcome must not depend on what the bytes look like (a "friendlier" error for callers who pass a hex
+	// string is not ErrEntropyLen)
+	for n := 0; n <= 70; n++ {
+		for k, alphabet := range []string{"0123456789abcdef", "0123456789ABCDEF", "0123456789", "abcdefghijklmnopqrstuvwxyz"} {
+			if c.quick && (n+k)%2 != int(c.rep.Seed%2) && n != 40 && n != 48 && n != 56 && n != 64 {
+				continue
+			}
+			e := make([]byte, n)
+			for i := range e {
+				e[i] = alphabet[c.rng.Intn(len(alphabet))]
+			}
+			impl, _ := c.enc("text-like-length-sweep", int64(langVals[(n+k)%10]), e)
+			ok := n == 16 || n == 20 || n == 24 || n == 28 || n == 32
+			if !ok && impl != "err entropyLen" {
+				c.rep.violate(Violation{Kind: "property", Class: "text-like-length-sweep", Op: fmt.Sprintf("enc %d %s", langVals[(n+k)%10], hx(e)), Impl: impl,
+					Detail: "an entropy of an illegal length must give (\"\", ErrEntropyLen) whatever its bytes look like"})
 			}
 		}
 	}
